@@ -231,7 +231,7 @@ class GenB(GenA):
         self.stage_n += 1
         taken = self.run.lc.stage_names | ({self.run.lc.open_stage} if self.run.lc.open_stage else set())
         if rng.random() < self.p.get('p_odd_stage_name', 0.12):
-            cand = ['All', 'ALL', 'aLL', ' all', 'all ', 'S1', 's 1', 'stage', '0', 'None']
+            cand = ['All', 'ALL', 'aLL', ' all', 'all ', 'S1', 's 1', 'stage', '0', 'None', '', '', ' ']
             cand += [n for n in self.run.lc.declared[:2]] + [self.W.real_name[n] for n in self.subs_of()[:1]]
             cand = [n for n in cand if n not in taken]
             if cand:
